@@ -13,7 +13,7 @@
 //   2 (schedule) obs::sched_restart (engine/obs_restart.hpp) of the restarted Schedule equals that of the
 //                original Schedule at n and every later report step.
 //
-// Case string (= --replay argument):  M:<18 model digits, '.'-separated> U:<0..3> F:<0|1> X:<0|1> D:<0|1> N:<1..3>
+// Case string (= --replay argument):  M:<18 model digits, '.'-separated> [H:<whistctl.X1role.X1event.eventblock>] U:<0..3> F:<0|1> X:<0|1> D:<0|1> N:<1..3>
 #include "vf.hpp"
 #include "canon.hpp"
 #include "obs.hpp"
@@ -62,20 +62,33 @@ enum Dim { D_MSW, D_UDQ, D_ACT, D_P1ST, D_CSHUT, D_INJ, D_PCTL, D_GCTL, D_EFAC, 
 static const int DIM_N[NDIM] = {5, 3, 4, 3, 2, 3, 5, 4, 3, 2, 2, 2, 3, 4, 2, 2, 2, 2};
 // msw: 0 three segments / two branches, 1 standard well, 2 WSEGVALV, 3 WSEGSICD, 4 six segments with branch-interleaved numbering
 static const char* DIM_NAME[NDIM] = {"msw", "udq", "actionx", "P1status", "connshut", "I1kind", "P1ctl", "groupctl", "efac", "network", "wlist", "wconhist", "dynstate", "P1conn", "welspecs", "wgrupcon", "vfp", "gruptree"};
+// History-control sub-model (part B, complete product, not under the deviation budget):
+//   h[0] WHISTCTL at the top of SCHEDULE: 0 none 1 ORAT 2 LRAT 3 RESV
+//   h[1] role of an extra well X1 from block 0 on: 0 no such well, 1 producer (WCONPROD), 2 history producer (WCONHIST ORAT),
+//        3 injector (WCONINJE), 4 history injector (WCONINJH)
+//   h[2] event on X1 later: 0 none, 1 WCONHIST ORAT, 2 WCONHIST RESV, 3 WCONINJH, 4 WCONPROD LRAT
+//   h[3] block of that event: 0 -> block 3 (at or after every restart step), 1 -> block 2 (before restart step 3)
+static const int H_N[4] = {4, 5, 5, 2};
+static const char* H_WHCTL[4] = {"", "ORAT", "LRAT", "RESV"};
 struct Model {
     int d[NDIM] = {0};
+    int h[4] = {0, 0, 0, 0};
+    int x1_water = 0;     // replay-only (token W:1): X1 declared with WELSPECS preferred phase WATER instead of OIL, see run.assumptions
+    std::string hstr() const { return std::to_string(h[0]) + "." + std::to_string(h[1]) + "." + std::to_string(h[2]) + "." + std::to_string(h[3]); }
     std::string str() const { std::string s; for (int i = 0; i < NDIM; ++i) s += (i ? "." : "") + std::to_string(d[i]); return s; }
-    std::string describe() const { std::string s; for (int i = 0; i < NDIM; ++i) if (d[i]) s += std::string(s.empty() ? "" : ",") + DIM_NAME[i] + "=" + std::to_string(d[i]); return s.empty() ? "default" : s; }
+    std::string describe() const { std::string s; for (int i = 0; i < NDIM; ++i) if (d[i]) s += std::string(s.empty() ? "" : ",") + DIM_NAME[i] + "=" + std::to_string(d[i]); if (h[0] || h[1] || h[2] || h[3]) s += std::string(s.empty() ? "" : ",") + "whistctl/X1role/X1event/eventblock=" + hstr(); return s.empty() ? "default" : s; }
 };
 struct Case {
     Model m; int us = 0, fmt = 0, unif = 1, dbl = 0, n = 2;
-    std::string str() const { return "M:" + m.str() + " U:" + std::to_string(us) + " F:" + std::to_string(fmt) + " X:" + std::to_string(unif) + " D:" + std::to_string(dbl) + " N:" + std::to_string(n); }
+    std::string str() const { return "M:" + m.str() + " H:" + m.hstr() + (m.x1_water ? " W:1" : "") + " U:" + std::to_string(us) + " F:" + std::to_string(fmt) + " X:" + std::to_string(unif) + " D:" + std::to_string(dbl) + " N:" + std::to_string(n); }
     static Case parse(const std::string& s) {
         Case c; std::istringstream ss(s); std::string tok;
         while (ss >> tok) {
             auto p = tok.find(':'); if (p == std::string::npos) throw std::runtime_error("bad case token " + tok);
             std::string k = tok.substr(0, p), v = tok.substr(p + 1);
             if (k == "M") { std::istringstream vs(v); std::string t; int i = 0; while (std::getline(vs, t, '.') && i < NDIM) c.m.d[i++] = std::atoi(t.c_str()); }
+            else if (k == "H") { std::istringstream vs(v); std::string t; int i = 0; while (std::getline(vs, t, '.') && i < 4) c.m.h[i++] = std::atoi(t.c_str()); }
+            else if (k == "W") c.m.x1_water = std::atoi(v.c_str());
             else if (k == "U") c.us = std::atoi(v.c_str()); else if (k == "F") c.fmt = std::atoi(v.c_str()); else if (k == "X") c.unif = std::atoi(v.c_str());
             else if (k == "D") c.dbl = std::atoi(v.c_str()); else if (k == "N") c.n = std::atoi(v.c_str());
             else throw std::runtime_error("bad case key " + k);
@@ -110,6 +123,18 @@ static std::string schedule_text(const Model& M, int restart_n) {
     std::string s = "SCHEDULE\n";
     if (restart_n > 0) s += "SKIPREST\n";
     s += "RPTRST\n BASIC=2 /\n";
+    const int* h = M.h;
+    // WHISTCTL before any well exists (it would flip existing injectors otherwise)
+    if (h[0]) s += std::string("WHISTCTL\n ") + H_WHCTL[h[0]] + " /\n";
+    auto x1_event = [&]() -> std::string {
+        switch (h[1] ? h[2] : 0) {
+        case 1: return "WCONHIST\n 'X1' OPEN ORAT 50 60 500 /\n/\n";
+        case 2: return "WCONHIST\n 'X1' OPEN RESV 50 60 500 /\n/\n";
+        case 3: return "WCONINJH\n 'X1' WATER OPEN 150 /\n/\n";
+        case 4: return "WCONPROD\n 'X1' OPEN LRAT 45 2* 90 1* 35 /\n/\n";
+        default: return "";
+        }
+    };
     // ---- block 0
     s += "GRUPTREE\n 'G1' 'FIELD' /\n 'G2' 'FIELD' /\n 'G3' 'G2' /\n/\n";
     s += std::string("WELSPECS\n 'P1' 'G1' 1 1 2005 OIL ") + (d[D_WSPEC] == 1 ? "50.0 STD STOP NO " : "") + "/\n" + std::string(" 'P2' 'G1' 2 1 1* OIL /\n 'P3' 'G1' 3 1 1* OIL /\n 'I1' 'G3' 3 3 2010 ") + (d[D_INJ] == 1 ? "GAS" : "WATER") + " /\n/\n";
@@ -130,6 +155,13 @@ static std::string schedule_text(const Model& M, int restart_n) {
     if (d[D_INJ] == 0) s += "WCONINJE\n 'I1' WATER OPEN RATE 200 1* 500 /\n/\n";
     else if (d[D_INJ] == 1) s += "WCONINJE\n 'I1' GAS OPEN RATE 20000 1* 500 /\n/\n";
     else s += "WCONINJE\n 'I1' WATER OPEN BHP 200 1* 450 /\n/\n";
+    if (h[1]) {
+        s += std::string("WELSPECS\n 'X1' 'G1' 1 2 1* ") + (M.x1_water ? "WATER" : "OIL") + " /\n/\nCOMPDAT\n 'X1' 1 2 1 2 OPEN 1* 1* 0.2 /\n/\n";
+        if (h[1] == 1) s += "WCONPROD\n 'X1' OPEN ORAT 40 4* 30 /\n/\n";
+        if (h[1] == 2) s += "WCONHIST\n 'X1' OPEN ORAT 40 5 400 /\n/\n";
+        if (h[1] == 3) s += "WCONINJE\n 'X1' WATER OPEN RATE 120 1* 400 /\n/\n";
+        if (h[1] == 4) s += "WCONINJH\n 'X1' WATER OPEN 120 /\n/\n";
+    }
     if (d[D_EFAC] == 0) s += "WEFAC\n 'P1' 0.8 /\n/\nGEFAC\n 'G1' 0.9 /\n/\n";
     else if (d[D_EFAC] == 2) s += "WEFAC\n 'P1' 0.5 /\n 'I1' 0.75 /\n/\nGEFAC\n 'G1' 0.25 /\n 'G3' 0.5 /\n/\n";
     if (d[D_WLIST] == 0) s += "WLIST\n '*L1' NEW P1 P2 /\n '*L2' NEW I1 /\n/\n";
@@ -166,9 +198,11 @@ static std::string schedule_text(const Model& M, int restart_n) {
     s += "WELOPEN\n 'P3' SHUT /\n/\n";
     if (d[D_WLIST] == 0) s += "WLIST\n '*L1' ADD P3 /\n/\n";
     s += "WELTARG\n 'P2' ORAT 66 /\n/\n";
+    if (h[3] == 1) s += x1_event();
     s += std::string("DATES\n 1 ") + MONTHS[2] + " 2020 /\n/\n";
     // ---- block 3
     s += "WELOPEN\n 'P3' OPEN /\n/\n";
+    if (h[3] == 0) s += x1_event();
     if (d[D_TREE] == 1) s += "GRUPTREE\n 'G3' 'FIELD' /\n/\n";
     if (d[D_P1ST] != 0) s += "WELOPEN\n 'P1' OPEN /\n/\n";
     if (d[D_CSHUT] == 0) s += "WELOPEN\n 'P1' OPEN 0 0 2 /\n/\n";
@@ -191,8 +225,8 @@ static double fp(int q, int w, int sub, int k, int dyn) {
     if (dyn == 2) v *= (q <= Q_RGAS ? 3.0e-3 : 1.0 / 3.0);        // second fingerprint set: other magnitudes, not dyadic
     return v;
 }
-static const char* WNAMES[5] = {"P1", "P2", "P3", "I1", "I2"};
-static int windex(const std::string& n) { for (int i = 0; i < 5; ++i) if (n == WNAMES[i]) return i; return 7; }
+static const char* WNAMES[6] = {"P1", "P2", "P3", "I1", "I2", "X1"};
+static int windex(const std::string& n) { for (int i = 0; i < 6; ++i) if (n == WNAMES[i]) return i; return 7; }
 
 // the dynamic state the "simulator" hands over at report step k (describing schedule state k-1)
 static data::Wells make_wells(const Schedule& sched, const Model& M, int k) {
@@ -656,10 +690,12 @@ int main(int argc, char** argv) {
                "UDQ ASSIGN+DEFINE at field/group/well level, ACTIONX run at report step 1 (its WELTARG applied with Schedule::applyAction), BRANPROP/NODEPROP network, WELOPEN on a connection, "
                "later blocks with WELSPECS/COMPDAT/WELTARG/WELOPEN/WEFAC/GCONPROD/WCONPROD acting on the restored objects, 4 report steps; deviations: each of " + std::to_string((int)NDIM) + " features removed/varied (alternatives per feature: ";
     for (int i = 0; i < NDIM; ++i) run.rule += std::string(i ? "," : "") + DIM_NAME[i] + ":" + std::to_string(DIM_N[i]);
-    run.rule += "), every model with <= " + std::to_string(budget) + " deviations x complete product {METRIC,FIELD,LAB,PVT-M} x FMTOUT{0,1} x UNIFOUT{0,1} x write_double{0,1} x restart step n{1,2,3}; "
+    run.rule += "), PART A: every model with <= " + std::to_string(budget) + " deviations x complete product {METRIC,FIELD,LAB,PVT-M} x FMTOUT{0,1} x UNIFOUT{0,1} x write_double{0,1} x restart step n{1,2,3}; "
                 "dynamic state = fingerprint values (distinct dyadic multiple per quantity/well/connection/segment/step) passed through the real Summary::eval and UDQConfig::eval for steps 1..n, every report step 1..n written with EclipseIO::writeTimeStep; "
                 "oracle 1: loaded solution/extra arrays, rates/bhp/thp/active control of wells OPEN in the schedule state the file describes, their connection rates/pressures, segment rates/pressures, "
                 "W/G/F cumulative totals, UDQState + summary UDQ values, ACTIONX run count/time equal the saved ones (identical for untouched DOUB/INTE, 1e-14 rel after a unit-conversion pair, 1.2e-7 rel for REAL); "
+                "PART B (history control, complete product on the default model): WHISTCTL {none,ORAT,LRAT,RESV} at the top of SCHEDULE x role of an extra well X1 {WCONPROD producer, WCONHIST producer, WCONINJE injector, WCONINJH injector} "
+                "x later event on X1 {none, WCONHIST ORAT, WCONHIST RESV, WCONINJH, WCONPROD LRAT} x restart step n{1,2,3}" + std::string(run.thorough() ? " x event in block {3,2} x 4 unit systems x FMTOUT{0,1}" : " (event in block 3, METRIC, unformatted unified)") + ", same two oracles; "
                 "oracle 2: obs::sched_restart query list equal between Schedule(deck) and Schedule(deck+RESTART+SKIPREST, rst_state) at n..4 (REAL-stored quantities to 1.2e-7 rel)";
     run.assumptions = {
         "a restart file written at report step n describes schedule state n-1 (sim_step); 'flowing well' = Schedule status OPEN in that state",
@@ -671,6 +707,7 @@ int main(int argc, char** argv) {
         "ACTIONX runs at report step 1 and again at report step 2; for n = 1 the action is still pending (an action triggered while report step n itself is written acts on schedule state n, which the file does not describe)",
         "same numeric deck in every unit system (a different physical model per system)",
         "the well/connection/segment part of oracle 1 is evaluated twice: EclipseIO::loadRestart with the restarted Schedule and RestartIO::load with the original (deck-built) Schedule",
+        "the extra well X1 of part B is declared with WELSPECS preferred phase OIL in every role; with WATER (replay token W:1) a well that is an injector in the file and later becomes a producer answers getPreferredPhase() = OIL after restart (RstWell builds WellType with a default phase although IWEL carries it) - DESIGN.md C05 probe fact (iii) classed the injector's preferred phase as not promised, reported to the lead, not enumerated",
         "segments are identified by segment number; the storage order inside WellSegments (deck: branch by branch, restart: by number) is not compared",
         "a FORMATTED restart file prints REAL with 8 and DOUB with 14 significant digits: tolerances 2.5e-7 / 1e-13 there",
         "requested control mode of an open well: the file stores the ACTIVE control in its single slot; the restarted schedule may answer with the saved active control instead of the requested one (counted, not a violation); the set of controls and every limit/target is compared",
@@ -699,6 +736,23 @@ int main(int argc, char** argv) {
             if (run.samples.size() < 3 && us == 1 && fmt == 1 && n == 3) run.sample_str(c.str() + "  (" + m.describe() + ")");
         }
     }, budget, [&]() { return stop; });
+    // ---- part B: history-control sub-model, complete product on the otherwise default model
+    uint64_t hmodels = 0;
+    {
+        const int nus = run.thorough() ? 4 : 1, nfmt = run.thorough() ? 2 : 1, nblk = run.thorough() ? 2 : 1;
+        for (int w = 0; w < H_N[0] && !stop; ++w) for (int r = 1; r < H_N[1]; ++r) for (int e = 0; e < H_N[2]; ++e) for (int b = 0; b < nblk; ++b) {
+            if (e == 0 && b == 1) continue;                    // no event: its block is immaterial
+            ++hmodels;
+            for (int us = 0; us < nus; ++us) for (int fmt = 0; fmt < nfmt; ++fmt) for (int n = 1; n <= 3; ++n) {
+                if (!run.mine()) continue;
+                if (run.timed_out()) { stop = true; break; }
+                Case c; c.m.h[0] = w; c.m.h[1] = r; c.m.h[2] = e; c.m.h[3] = b; c.us = us; c.fmt = fmt; c.unif = 1; c.dbl = 0; c.n = n;
+                judge(c);
+                if (run.samples.size() < 5 && w == 1 && r == 4 && e == 2 && n == 3) run.sample_str(c.str() + "  (" + c.m.describe() + ")");
+            }
+        }
+    }
+    if (run.shard == 0) run.count("history_control_models", (long long)hmodels);
     if (run.shard == 0) run.count("models", (long long)models);
     fs::current_path("/"); std::error_code ec; fs::remove_all(dir, ec);
     return run.finish();
